@@ -106,6 +106,29 @@ def _forest_api(out):
                      origin=c["origin"], facts=set(c["facts"]))
 
 
+def _big_forests(out):
+    """C03 big-integer counts: calls on real forests with more than 10^12 / 2^32 / 2^63 trees, judged by BigForestCheck.tla (exact limb arithmetic)"""
+    from . import stage_big
+
+    r = stage_big.get(tier(), seed())
+    out.cov["states"] += r["stats"]["states"]
+    out.cov["transitions"] += r["stats"]["generated"]
+    out.cov["big_forests"] = [{"forest": c["name"], "dag_nodes": c["nodes"], "trees": c["count_tla"], "calls": len(c["calls"])} for c in r["cases"]]
+    for c in r["cases"]:
+        out.count(len(c["calls"]))
+        out.cov["traces_validated_against_impl"] += 1
+        out.nontrivial("big:" + c["name"])
+        for step, clause in c["bad"]:
+            op, idx = c["calls"][step - 1]
+            out.fail(clause, "%s :: call %d %s(%s)" % (c["name"], step, op, idx), {"kind": "big-forest-call", "name": c["name"], "step": step, "call": [op, idx],
+                                                                                  "reply": c["replies"][step - 1], "trees": c["count_tla"]}, origin=c["origin"])
+
+
+def _c03_extra(out):
+    _forest_api(out)
+    _big_forests(out)
+
+
 def c03(replay_case=None):
     return run(
         "C03",
@@ -113,11 +136,13 @@ def c03(replay_case=None):
         clause_ok=lambda cl, c: cl.startswith("C03:"),
         nontrivial=lambda c: c["flags"]["trees"] >= 2 or c["flags"]["trees"] == -1,
         rule="cases = forests returned by real GLR parses; non-trivial = reference has >= 2 trees or infinitely many; "
-             "every tree of forests up to 40 trees enumerated lazily, non-lazily, repeatedly, by iteration; indices len, len+1, 2len+3, 10^12 probed",
+             "every tree of forests up to 40 trees enumerated lazily, non-lazily, repeatedly, by iteration; indices len, len+1, 2len+3, len+10^12 probed; "
+             "big-integer counts: forests with 3*10^11 .. 10^20+ trees, exact count (limb arithmetic in TLA+) vs solutions/len, indices 0, 1, 2, n/3, n/2, n-2, n-1, n, n+1, "
+             "2n+3, 2^31-1, 2^31, 2^32, 2^63-2, 2^63-1, 2^63, 2^64, 10^30 lazily and non-lazily, repeated access, first tree, iteration prefix",
         assumptions=[LATTICE_ASSUMPTION, "tree sets are materialised in TLA+ up to 60 trees; beyond that counts (saturating + residues mod four 15-bit primes) only",
                      "API histories: which tree an index denotes is not documented; the machine demands an injection into the represented trees that is stable across lazy, non-lazy, iterated and repeated access"],
         replay_case=replay_case,
-        extra=_forest_api,
+        extra=_c03_extra,
     )
 
 
@@ -148,7 +173,8 @@ def c17(replay_case=None):
     return run(
         "C17",
         select=lambda c: not c["consume"],
-        clause_ok=lambda cl, c: cl.startswith(("C01:", "C02:")) or cl in ("C03:duplicate-alternative", "C03:len"),
+        # (a tree whose nodes claim other positions than its leaves cover is not the derivation tree of the prefix it claims)
+        clause_ok=lambda cl, c: cl.startswith(("C01:", "C02:")) or cl in ("C03:duplicate-alternative", "C03:len", "C08:forest-positions"),
         nontrivial=lambda c: c["flags"]["sentence"] and len(c["input"]) >= 1,
         rule="cases = GLRParser(consume_input=False).parse on acyclic grammars x all inputs <= n; reference = union over all sentence prefixes "
              "ending at a token boundary; non-trivial = some non-empty-input prefix is a sentence",
